@@ -1,9 +1,9 @@
 CONSTANT Repaired = TRUE
-CONSTANT AETexts = {"absent", "gzip", "zstd, gzip", "br", "identity", "*", "gzip;q=0", "gzip;q=0, *", "*, gzip;q=0", "gzip, br;q=0", "gzip;q=0.5, zstd", "gzip, deflate, br, zstd"}
+CONSTANT AETexts = {"absent", "gzip", "zstd, gzip", "br", "identity", "*", "gzip;q=0", "gzip; q=0", "identity; q=1.0, gzip ; q=0.0", "gzip;q=0, *", "*, gzip;q=0", "gzip, br;q=0", "gzip;q=0.5, zstd", "gzip, deflate, br, zstd"}
 CONSTANT Statuses = {200, 204, 304, 404}
 CONSTANT PreCEs = {"none", "gzip", "br", "zstd", "identity"}
 CONSTANT ETags = {"none", "strong", "weak"}
-CONSTANT PatIdx = {1, 2, 3, 4, 5, 6, 7, 8, 9, 10, 11, 12, 13, 14, 15}
+CONSTANT PatIdx = {1, 2, 3, 4, 5, 6, 7, 8, 9, 10, 11, 12, 13, 14, 15, 16, 17}
 CONSTANT LevelsA = {0, 9}
 CONSTANT LevelsB = {0}
 CONSTANT MinLens = {0, 50}
